@@ -1,14 +1,24 @@
 (** C09 — serialized objects parse back to the same value.
-    Only statements here; proofs live in theories/C09/{Tokens,FracSweep,Proofs}.v.
+    Only statements here; proofs live in theories/C09/{Tokens,FracSweep,Proofs,Reals,Full}.v.
 
-    FULL STATEMENT (kept visible; the structural induction over nesting is not finished):
+    FULL STATEMENT (proved below as c09_ser_parse_roundtrip, by structural induction over
+    arbitrarily nested arrays/dictionaries; theories/C09/Full.v):
       c09_ser_parse_roundtrip :
         forall v, wf v = true -> parse (ser raw_name v) = Some (norm v).
     where [wf] requires regular names, integral reals within i64, object numbers <= 9 999 999
-    and no [i g /R] inside an array (the four known classes, each refuted below by a witness).
-    PROVED below: every token class for all values of that class (the [_partial] part), the
-    escaper of the incremental writer for all names, the refutations. *)
-From OxVerif Require Import Base.Util C09.Model C09.Tokens C09.FracSweep C09.Proofs C09.Reals.
+    and no [i g /R] inside an array (the four known classes, each refuted below by a witness),
+    besides the type invariants of the Rust values (i64 integers, u8 bytes, u16 generations).
+    The [_partial] theorems are the per-token-class statements the induction is built from;
+    c09_lex_nested / c09_parse_nested are its two continuation-style layers.
+
+    INDEPENDENT READER (theories/C09/Lex.v, written from ISO 32000-1 7.2/7.3; proofs LexFull.v):
+      c09_ser_iso_roundtrip :
+        forall v, iso_wf v = true -> iso_parse (ser raw_name v) = Some (norm v).
+    where [iso_wf] requires ISO-regular names (no white space incl. NUL, no delimiter incl. braces,
+    no '#'), no CR in literal strings and bytes < 256 in hex strings — and nothing else: the
+    [i g /R] collision, the i64 bound on integral reals and the object-number bound are flaws of the
+    library's reader only.  c09_ser_both_readers: both readers, for [wf] values with [iso_extra]. *)
+From OxVerif Require Import Base.Util C09.Model C09.Tokens C09.FracSweep C09.Proofs C09.Reals C09.Full C09.Lex C09.LexFull.
 
 (** literal strings: every byte string, whatever follows *)
 Theorem c09_literal_string_roundtrip : forall s rest,
@@ -119,3 +129,117 @@ Print Assumptions c09_incr_nonascii_refuted.
 (** non-vacuity *)
 Example c09_nonvacuous : wf sample = true /\ parse (ser raw_name sample) = Some (norm sample).
 Proof. exact sample_wf_roundtrips. Qed.
+
+(** * The nested theorem (theories/C09/Full.v) *)
+
+(** layer 1, continuation style: the eager lexer on [ser v] followed by anything that is empty or
+    starts with SP, LF or ']' yields [toks v] and continues on the rest *)
+Theorem c09_lex_nested : forall v rest f, wf v = true -> good_rest rest -> (length (toks v) <= f)%nat ->
+  lex_all f (ser raw_name v ++ rest) = toks v ++ lex_all (f - length (toks v)) rest.
+Proof. exact lex_all_ser. Qed.
+Check c09_lex_nested : forall v rest f, wf v = true -> good_rest rest -> (length (toks v) <= f)%nat ->
+  lex_all f (ser raw_name v ++ rest) = toks v ++ lex_all (f - length (toks v)) rest.
+Print Assumptions c09_lex_nested.
+
+(** the integer arm's look-ahead pushes back exactly what it peeked *)
+Theorem c09_int_lookahead_pushback : forall i rest, rest_ok rest = true -> ahead_ok (CInt i) rest = true ->
+  parse_int i rest = Some (PInt i, rest).
+Proof. exact parse_int_back. Qed.
+Check c09_int_lookahead_pushback : forall i rest, rest_ok rest = true -> ahead_ok (CInt i) rest = true ->
+  parse_int i rest = Some (PInt i, rest).
+Print Assumptions c09_int_lookahead_pushback.
+
+(** layer 2, continuation style: the parser on [toks v] followed by any tokens that the look-ahead
+    can put back ([rest_ok]) and that are not "gen R" after an object number ([ahead_ok]) *)
+Theorem c09_parse_nested : forall v, wf v = true -> forall rest fuel, rest_ok rest = true ->
+  ahead_ok (tokcls v) rest = true -> (2 * length (toks v) <= fuel)%nat ->
+  parse_toks fuel (toks v ++ rest) = Some (norm v, rest).
+Proof. exact parse_toks_ser. Qed.
+Check c09_parse_nested : forall v, wf v = true -> forall rest fuel, rest_ok rest = true ->
+  ahead_ok (tokcls v) rest = true -> (2 * length (toks v) <= fuel)%nat ->
+  parse_toks fuel (toks v ++ rest) = Some (norm v, rest).
+Print Assumptions c09_parse_nested.
+
+(** hypotheses of the two layers are satisfiable on a nested value with a non-trivial continuation *)
+Example c09_lex_nested_hyps : wf sample = true /\ good_rest (bytes_of_string " 12 0 R]").
+Proof. exact lex_all_ser_hyps. Qed.
+Example c09_parse_nested_hyps :
+  wf sample = true /\ rest_ok [TInt 12; TInt 0; TName name_R; TArrE; TEof] = true
+  /\ ahead_ok (tokcls sample) [TInt 12; TInt 0; TName name_R; TArrE; TEof] = true
+  /\ ahead_ok (tokcls (OInt 10000000)) [TInt 12; TName name_R; TArrE; TEof] = true
+  /\ ahead_ok (tokcls (OInt 3)) [TInt 70000; TName name_R; TArrE; TEof] = true.
+Proof. exact parse_toks_ser_hyps. Qed.
+
+(** THE property: every well-formed object tree, nested arbitrarily *)
+Theorem c09_ser_parse_roundtrip : forall v, wf v = true -> parse (ser raw_name v) = Some (norm v).
+Proof. exact ser_parse_roundtrip. Qed.
+Check c09_ser_parse_roundtrip : forall v, wf v = true -> parse (ser raw_name v) = Some (norm v).
+Print Assumptions c09_ser_parse_roundtrip.
+
+(** * The same theorem against the ISO-shaped reference reader (theories/C09/Lex.v, LexFull.v) *)
+
+Theorem c09_iso_lex_nested : forall v rest f, iso_wf v = true -> good_rest rest -> (length (itoks v) <= f)%nat ->
+  ilex_all f (ser raw_name v ++ rest) = itoks v ++ ilex_all (f - length (itoks v)) rest.
+Proof. exact ilex_all_ser. Qed.
+Check c09_iso_lex_nested : forall v rest f, iso_wf v = true -> good_rest rest -> (length (itoks v) <= f)%nat ->
+  ilex_all f (ser raw_name v ++ rest) = itoks v ++ ilex_all (f - length (itoks v)) rest.
+Print Assumptions c09_iso_lex_nested.
+
+Theorem c09_iso_parse_nested : forall v, iso_wf v = true -> forall rest fuel, inokw rest = true ->
+  (2 * length (itoks v) <= fuel)%nat -> iparse_toks fuel (itoks v ++ rest) = Some (norm v, rest).
+Proof. exact iparse_toks_ser. Qed.
+Check c09_iso_parse_nested : forall v, iso_wf v = true -> forall rest fuel, inokw rest = true ->
+  (2 * length (itoks v) <= fuel)%nat -> iparse_toks fuel (itoks v ++ rest) = Some (norm v, rest).
+Print Assumptions c09_iso_parse_nested.
+
+Theorem c09_ser_iso_roundtrip : forall v, iso_wf v = true -> iso_parse (ser raw_name v) = Some (norm v).
+Proof. exact ser_iso_roundtrip. Qed.
+Check c09_ser_iso_roundtrip : forall v, iso_wf v = true -> iso_parse (ser raw_name v) = Some (norm v).
+Print Assumptions c09_ser_iso_roundtrip.
+
+(** [wf] values without CR in strings and without NUL / braces in names: both readers *)
+Theorem c09_wf_iso_wf : forall v, wf v = true -> iso_extra v = true -> iso_wf v = true.
+Proof. exact wf_iso_wf. Qed.
+Check c09_wf_iso_wf : forall v, wf v = true -> iso_extra v = true -> iso_wf v = true.
+Print Assumptions c09_wf_iso_wf.
+
+Theorem c09_ser_both_readers : forall v, wf v = true -> iso_extra v = true ->
+  parse (ser raw_name v) = Some (norm v) /\ iso_parse (ser raw_name v) = Some (norm v).
+Proof. exact ser_both_readers. Qed.
+Check c09_ser_both_readers : forall v, wf v = true -> iso_extra v = true ->
+  parse (ser raw_name v) = Some (norm v) /\ iso_parse (ser raw_name v) = Some (norm v).
+Print Assumptions c09_ser_both_readers.
+
+(** where the two readers part (candidate input classes for the correspondence) *)
+Theorem c09_iso_cr_refuted : exists v, wf v = true /\ iso_wf v = false
+  /\ parse (ser raw_name v) = Some (norm v)
+  /\ iso_parse (ser raw_name v) = Some (PStr [97; 10; 98]) /\ norm v = PStr [97; 13; 98].
+Proof. exact iso_cr_refuted. Qed.
+Check c09_iso_cr_refuted : exists v, wf v = true /\ iso_wf v = false
+  /\ parse (ser raw_name v) = Some (norm v)
+  /\ iso_parse (ser raw_name v) = Some (PStr [97; 10; 98]) /\ norm v = PStr [97; 13; 98].
+Print Assumptions c09_iso_cr_refuted.
+
+Theorem c09_iso_name_refuted : exists v1 v2, wf v1 = true /\ wf v2 = true
+  /\ parse (ser raw_name v1) = Some (norm v1) /\ parse (ser raw_name v2) = Some (norm v2)
+  /\ iso_parse (ser raw_name v1) = Some (PName [65]) /\ iso_parse (ser raw_name v2) = Some (PName [65]).
+Proof. exact iso_name_refuted. Qed.
+Check c09_iso_name_refuted : exists v1 v2, wf v1 = true /\ wf v2 = true
+  /\ parse (ser raw_name v1) = Some (norm v1) /\ parse (ser raw_name v2) = Some (norm v2)
+  /\ iso_parse (ser raw_name v1) = Some (PName [65]) /\ iso_parse (ser raw_name v2) = Some (PName [65]).
+Print Assumptions c09_iso_name_refuted.
+
+(** non-vacuity of [iso_wf], [wf] + [iso_extra]; and values outside [wf] the ISO reader reads back *)
+Example c09_iso_nonvacuous : wf isample = true /\ iso_extra isample = true /\ iso_wf isample = true
+  /\ iso_parse (ser raw_name isample) = Some (norm isample).
+Proof. exact isample_ok. Qed.
+Example c09_iso_reads_known_classes : wf isample2 = false /\ iso_wf isample2 = true
+  /\ iso_parse (ser raw_name isample2) = Some (norm isample2).
+Proof. exact isample2_ok. Qed.
+
+(** link to the verdict: on a [wf] value, channel [ser] never yields code 2 (model = implementation
+    but property fails) — a property failure on such a value is always also a model difference *)
+Theorem c09_ser_code_not_2 : forall v bs p, wf v = true -> ser_code (v, bs, p) <> 2.
+Proof. exact ser_code_not_2. Qed.
+Check c09_ser_code_not_2 : forall v bs p, wf v = true -> ser_code (v, bs, p) <> 2.
+Print Assumptions c09_ser_code_not_2.
